@@ -140,6 +140,10 @@ impl Report {
             i.violations.push(v);
         }
     }
+    /// (signature, detail) of every stored violation, for replays (no files are written).
+    pub fn violations_snapshot(&self) -> Vec<(String, String)> {
+        self.inner.lock().unwrap().violations.iter().map(|v| (v.signature.clone(), v.detail.to_string())).collect()
+    }
     pub fn violation_count(&self) -> u64 {
         self.inner.lock().unwrap().violation_counts.values().sum()
     }
